@@ -91,6 +91,25 @@ class Ctx:
         self._cfgs: Dict[Func, CFG] = {}
         self.root = self.model.root
         self.paths_enumerated = 0
+        self._projected: Optional["Ctx"] = None
+
+    def projected(self) -> "Ctx":
+        """The context the pin (soft) rules read: the same tree with every *new option* of a reference function fixed at
+        its default (sa/canon.py, step P0).  The tree itself when it has no new option."""
+        if not self.model.new_options or self.model.project:
+            return self
+        if getattr(self, "_projected", None) is None:
+            c = Ctx.__new__(Ctx)
+            c.tier = self.tier
+            c.model = Model(self.root, extra_sources=self.model.extra_sources, project=True)
+            c.env = Env(c.model)
+            c._fx = None
+            c._cfgs = {}
+            c.root = self.root
+            c.paths_enumerated = 0
+            c._projected = c
+            self._projected = c
+        return self._projected
 
     def with_extra(self, sources: Dict[str, str]) -> "Ctx":
         """A context over the same tree plus synthetic modules (positive controls of expected-zero rules)."""
@@ -102,6 +121,7 @@ class Ctx:
         c._cfgs = {}
         c.root = self.root
         c.paths_enumerated = 0
+        c._projected = None
         return c
 
     @property
@@ -227,6 +247,8 @@ def _binds_name(n, name: str) -> bool:
 
 
 def run_rule(ctx: Ctx, rd: RuleDef) -> List[Ob]:
+    if rd.soft:
+        ctx = ctx.projected()
     try:
         obs = rd.fn(ctx)
     except AnalysisError as e:
@@ -240,6 +262,11 @@ def run_rule(ctx: Ctx, rd: RuleDef) -> List[Ob]:
 
         tb = traceback.extract_tb(e.__traceback__)
         where = f"{tb[-1].filename.split('/')[-1]}:{tb[-1].lineno}" if tb else "?"
+        if rd.soft:
+            # a pin rule that trips over a shape it does not know cannot decide (the thorough tier fails on an
+            # undecided clause on the reference tree, so a defect of the rule itself does not hide here)
+            return [ctx.tri(rd.name, rd.props, "package", f"{rd.name}: " + rd.doc.split(";")[0][:120], None, None,
+                            f"could not analyse this shape ({type(e).__name__}: {e} at {where})")]
         raise AnalysisError(f"rule {rd.name} could not analyse this shape ({type(e).__name__}: {e} at {where})") from e
     n = sum(1 for o in obs if not o.note or o.undecided)
     if n < rd.floor and rd.soft:
